@@ -1,6 +1,14 @@
+CONSTANT BSel = {1, 2, 3, 4, 5, 6, 7, 8, 9, 10}
+CONSTANT ChainSel = {"add-sub", "sub-add", "mul-div", "div-mul"}
 CONSTANT F12Fixed = TRUE
+CONSTANT B256CmpFixed = TRUE
 CONSTANT ClsSel = {"bin", "shift", "not", "widen", "narrow", "chain", "b256"}
 CONSTANT TySel = {"u8", "u16", "u32", "u64", "u256"}
 SPECIFICATION Spec
+INVARIANT Agreement
+INVARIANT NoSubstitution
+INVARIANT NoPanic
+INVARIANT InRange
+INVARIANT FoldSound
 INVARIANT PrintReplay
 CHECK_DEADLOCK FALSE
